@@ -102,15 +102,9 @@ def gateBlocks (s : State) : Act → Bool
       | .post, .put => true                       -- the node sits in doPost
       | .alert _, .handle => true                 -- the handler goroutine sits in the POST
       | .influx _, .put => nd.deliv > 0           -- writeBuffer.run sits in cli.Write
+      | .influx _, .closeOut => nd.deliv > 0 || nd.buf > 0   -- the node's final flush() waits for that Write / writes itself
       | _, _ => false
     | none => false
-  | .stop =>
-    match s.ph with
-    | .stopF i =>
-      match s.nodes[i]? with
-      | some nd => (match nd.kind with | .influx _ => nd.deliv > 0 || nd.buf > 0 | _ => false)
-      | none => false
-    | _ => false
   | _ => false
 
 def actName : Act → String
@@ -275,8 +269,6 @@ def judge (_id : String) (lines : Array String) : Verdict := Id.run do
         if devUdfFail input then return .known "udf-above-failed-node-blocks-stop" detail
         return .specfail clause detail
       if clause == "accepted-points-delivered" then
-        if devInflux input && (pS.lostAt.any (fun p => (kinds[p.1]?.map (fun k => match k with | .influx _ => true | _ => false)).getD false)) then
-          return .known "influxdbout-stop-drops-backlog" detail
         if devUdf input && (pS.lostAt.any (fun p => kinds[p.1]? == some .udf)) then
           return .known "udf-stop-aborts-backlog" detail
         if devIngest input && pS.lostIngest > 0 then return .known "ingest-edge-not-drained-on-stop" detail
